@@ -21,6 +21,18 @@ impl<const N: usize> Exec<N> {
                 e
             })?;
         }
+        if self.view.live().len() >= 2 {
+            let target = match s {
+                Step::Add { i, .. } | Step::Bind { i, .. } | Step::Put { i, .. } | Step::Data { i, .. } | Step::NextId { i, .. }
+                | Step::Drain { i, .. } | Step::Script { i, .. } | Step::Save { i, .. } | Step::Oob { i, .. } => *i + 1,
+                Step::Clone { src, .. } | Step::Slice { src, .. } => *src + 1,
+                Step::Merge { dst, .. } => *dst + 1,
+                _ => 0,
+            };
+            if target > 0 {
+                self.interleaving.usize(target);
+            }
+        }
         let r = self.step_inner(s);
         self.view.steps_done += 1;
         match r {
